@@ -56,6 +56,7 @@ func rulesC04(c *Ctx) {
 	commentsRule(c, "C04.comments")
 	// ---- nil tests that cannot succeed ----
 	typedNilC04(c)
+	nilErrRule(c, "C04.nilerr")
 	// ---- token ring ----
 	tokringC04(c)
 	// ---- rune ring ----
@@ -582,9 +583,11 @@ func eofRegistered(p *Program, tt *tokenTable) string {
 // typedNilC04: a nil test on an interface value that was just built from a
 // concrete pointer never succeeds; the code believes the value can be absent
 // (it tests for it) and then uses it as present.
-func typedNilC04(c *Ctx) {
+func typedNilC04(c *Ctx) { typedNilRule(c, "C04.typednil") }
+
+func typedNilRule(c *Ctx, rule string) {
 	p := c.P
-	c.Rule("C04.typednil", "no comparison with nil is made on an interface value that on every incoming path was converted from a concrete pointer (the comparison is false even when the pointer is nil): the `missing operand` guards of the parser must test the pointer itself")
+	c.Rule(rule, "no comparison with nil is made on an interface value that on every incoming path was converted from a concrete pointer (the comparison is false even when the pointer is nil): the `missing operand` guards of the parser must test the pointer itself")
 	n := 0
 	var onlyBoxed func(v ssa.Value, depth int) (boxed bool, from ssa.Value)
 	onlyBoxed = func(v ssa.Value, depth int) (bool, ssa.Value) {
@@ -635,14 +638,14 @@ func typedNilC04(c *Ctx) {
 					n++
 					if boxed, from := onlyBoxed(other, 0); boxed {
 						key := fmt.Sprintf("%s: nil test of a boxed %s", f.Name(), p.TypeStr(from.Type()))
-						c.Bad("C04.typednil", key, bo.Pos(), "the tested interface value always holds a (possibly nil) "+p.TypeStr(from.Type())+": the test never reports a missing value, and the nil pointer is handed on as if present")
+						c.Bad(rule, key, bo.Pos(), "the tested interface value always holds a (possibly nil) "+p.TypeStr(from.Type())+": the test never reports a missing value, and the nil pointer is handed on as if present")
 					}
 				}
 			}
 		}
 	}
-	c.OK("C04.typednil", "interface nil tests examined", 0, fmt.Sprintf("%d comparisons of an interface value with nil; none is on a freshly boxed pointer", n))
-	c.Floor("C04.typednil", n, 40)
+	c.OK(rule, "interface nil tests examined", 0, fmt.Sprintf("%d comparisons of an interface value with nil; none is on a freshly boxed pointer", n))
+	c.Floor(rule, n, 40)
 }
 
 // assertedAway lists the types a statement before the type switch ts already
